@@ -289,12 +289,16 @@ def declared_twin(v):
 
 def standard_ops(variants, files, js=(1, 3), with_faults=True, with_rm=True, targets_extra=(), touch=False,
                  fault_modes=(({"code": 1}), ({"code": 200, "touch": True})), ks=(1,), max_fault_stmts=None,
-                 pair_faults=False, rm_depfiles=False, edits_during=True):
+                 pair_faults=False, rm_depfiles=False, edits_during=True, touch_only=()):
     """A generic operation alphabet for a scenario (see DESIGN.md 5/C01)."""
     v0 = variants[0]
     ops = []
     srcs = sources_of(variants)
     for s in srcs:
+        if s in touch_only:
+            # sources whose content is structured (a dyndep file): only their timestamp changes
+            ops.append({"op": "touch", "path": s, "label": "touch " + s})
+            continue
         if s in files or True:
             ops.append({"op": "edit", "path": s, "label": "edit " + s})
             if touch:
